@@ -77,6 +77,18 @@ CHECKS = {
              "independence of sampled scalars/generators (formal symbols). Key distribution beyond 'rho contains a fresh uniform term' is not analysed.",
         tech="LLVM-IR symbolic execution over formal discrete logarithms (D-GRP); induction over delegation histories; integer VCs modulo r in z3; native replay",
         ref="5/C11"),
+    "C14": dict(
+        cat="proof",
+        text="adjust_precomputed, adjust_nondelegable, precompute and the precomputed/direct forms of encrypt, sign and verify are executed symbolically "
+             "from the IR over formal discrete logarithms. z3 decides, for all 256-bit attribute values (the word-level id subtraction with its "
+             "borrow is inside the query), that adjust_precomputed(precompute(from), from->to) = precompute(to) for every ordered pair of list "
+             "shapes (l <= 3 quick / 4 thorough), that adjust_nondelegable applied to the well-formed key for `from` yields component for component "
+             "(a0, a1, bsig, slot list, count) the well-formed key for `to` for every parent pattern x ordered pair of documented list shapes x "
+             "omit-all flags (l <= 2 quick / 3 thorough), and that direct and precomputed encryption/signing/verification agree.",
+        note="Chains of adjustments follow because each adjustment lands exactly on the from-scratch value. Hidden list entries carry id 0 as the bindings produce them. "
+             "Trusted: group layer specification, C11 for 'the key for from is well-formed'.",
+        tech="LLVM-IR symbolic execution over formal discrete logarithms (D-GRP) with integer-term attribute values; VCs modulo r in z3; native replay",
+        ref="5/C14"),
     "C18": dict(
         cat="proof",
         text="Aliasing patterns permitted by each signature are enumerated from the IR (non-noalias parameters of the output's type); every "
